@@ -11,6 +11,20 @@ TRUST = ('TLC/SANY (and Apalache where named), the JSON bridge between TLC and t
          'guards the bridge. ')
 
 CHECKS = {
+    'C01': dict(
+        technique='TLA+ capture-engine model (spec/CaptureEngine.tla) checked with TLC over every stream x every chunking in a small scope; the same exhaustive set executed on the real engine against the TLC-exported reference; recorded engine traces validated by Trace_CaptureEngine; real-scale layouts enumerated by TLC from spec/ImageRef.tla with reference verdicts, plus an agreement oracle over mutated/truncated/polyglot images and InspectWrapper read sizes',
+        category='model_checking',
+        text='Faithful, EndFaithful and ChunkIndependent (Verdict = Ref(stream)) are invariants of CaptureEngine.tla, checked by TLC '
+             'for every stream of length 7/8 over a 4-symbol alphabet under every chunking incl. empty chunks, for two format programs; '
+             'TLC also refutes each pinned-code deviation (D1, D7, F2) at design level. The real CaptureRegion/EndCaptureRegion/'
+             'FileInspector code is then run on the same exhaustive (stream, chunking) set with queries interleaved and compared with the '
+             'TLC-exported reference, and sampled runs are validated step by step as behaviours of the spec. At real scale TLC '
+             'enumerates ~11k layouts of the ten formats with their reference verdicts; each built image is streamed under boundary-'
+             'derived chunkings (giant, 1-byte, every boundary +-1, pairs, random, empty chunks) and must agree with the reference and '
+             'with itself; images outside the reference families are held to the agreement oracle alone.',
+        design_ref='6/C01',
+        note=TRUST + 'Raising ImageFormatError and refusing the safety check are one verdict class; the number of bytes retained '
+             'beyond what the verdict needs is spec drift, not a violation. Open findings F1, F3, F4 are listed in known_findings.json.'),
     'C13': dict(
         technique='TLA+ state machine (spec/StopWatch.tla) model-checked with TLC; labelled state graph replayed into the real StopWatch (all edges + all paths to depth 4/6); recorded call traces validated by Trace_StopWatch',
         category='model_checking',
